@@ -60,6 +60,11 @@ package config
 //@                       && cfg.Instrumentation.Namespace == DefaultConfig.Instrumentation.Namespace && cfg.Instrumentation.Pprof == DefaultConfig.Instrumentation.Pprof
 //@                       && cfg.Instrumentation.PprofListenAddr == DefaultConfig.Instrumentation.PprofListenAddr
 //@   at call NewDecoder [instrumentation-section-kept] (cfg.Instrumentation == nil) == (DefaultConfig.Instrumentation == nil)
+// ... and what the decoder leaves in it is what is returned: the function itself writes no option after decoding
+// (the decoder's own writes go through the Result pointer and are not modelled, so in the engine's terms the
+// returned sections still equal the defaults they were copied from)
+//@   ensures [untouched-after-decoding] err == nil ==> cfg.DBPath == DefaultConfig.DBPath && cfg.ChainID == DefaultConfig.ChainID && cfg.P2P == DefaultConfig.P2P && cfg.Node == DefaultConfig.Node
+//@                       && cfg.DA == DefaultConfig.DA && cfg.RPC == DefaultConfig.RPC && cfg.Log == DefaultConfig.Log && cfg.Signer == DefaultConfig.Signer
 //@   ensures [decode-hooks] ch.count == 1 && len(ch.arg0) == 3
 //@   ensures [decodes-all-settings] err == nil ==> dec.count == 1 && dec.res0 == nil && as.count == 1 && as.arg0 == v
 //@   ensures [home] err == nil ==> cfg.RootDir == home
